@@ -357,6 +357,58 @@ pub open spec fn cfg_inv<'a>(st: CfgSt<'a>, subs: Map<Tid, Term<Sub>>) -> bool {
     &&& forall |e: int| 0 <= e < st.edges.len() ==> (#[trigger] st.edges[e]).src.i < st.nodes.len() && st.edges[e].dst.i < st.nodes.len()
     &&& forall |f: Tid, i: int| st.ra.contains_key(f) && 0 <= i < st.ra[f].len() ==> cfg_ret_ok(st.nodes, #[trigger] st.ra[f][i])
     &&& forall |n: int| 0 <= n < st.nodes.len() ==> cfg_node_ok(subs, #[trigger] st.nodes[n])
+    &&& cfg_shape(st)
+}
+
+/// SHAPE of one edge: the kinds of the nodes at its ends are those its label promises (what the consumers of the graph --
+/// the forward / backward fixpoint adapters, the checkers -- rely on in their `match` arms), and what they read from the labels
+///   Block           BlkStart -> BlkEnd of the same block and function
+///   Jump(j, u)      BlkEnd -> BlkStart; an untaken jump `u` is a conditional branch
+///   CallCombine     BlkEnd -> CallSource
+///   Call            CallSource -> BlkStart
+///   ExternCallStub  BlkEnd -> BlkStart
+///   CrCallStub      CallSource -> CallReturn
+///   CrReturnStub    BlkEnd -> CallReturn
+///   ReturnCombine   CallReturn -> BlkStart
+pub open spec fn cfg_edge_shape<'a>(nodes: Seq<Node<'a>>, e: CfgEdge<'a>) -> bool {
+    let src = nodes[e.src.i as int];
+    let dst = nodes[e.dst.i as int];
+    &&& e.src.i < nodes.len() && e.dst.i < nodes.len()
+    &&& match e.w {
+            Edge::Block => src is BlkStart && dst is BlkEnd && cfg_blk(src) == cfg_blk(dst) && cfg_sub(src) == cfg_sub(dst),
+            Edge::Jump(jump, untaken) => src is BlkEnd && dst is BlkStart && (untaken is Some ==> untaken->Some_0.term is CBranch),
+            Edge::CallCombine(call) => src is BlkEnd && dst is CallSource,
+            Edge::Call(call) => src is CallSource && dst is BlkStart,
+            Edge::ExternCallStub(call) => src is BlkEnd && dst is BlkStart,
+            Edge::CrCallStub => src is CallSource && dst is CallReturn,
+            Edge::CrReturnStub => src is BlkEnd && dst is CallReturn,
+            Edge::ReturnCombine(call) => src is CallReturn && dst is BlkStart,
+        }
+}
+
+/// SHAPE of one node: the call site block of a CallSource / CallReturn node contains a direct call, the returned-from block
+/// of a CallReturn node contains a return instruction (so both blocks have a first jump)
+pub open spec fn cfg_node_shape<'a>(w: Node<'a>) -> bool {
+    match w {
+        Node::BlkStart(b, f) => true,
+        Node::BlkEnd(b, f) => true,
+        Node::CallSource { source, target } => cfg_has_call(*source.0),
+        Node::CallReturn { call, return_ } => cfg_has_call(*call.0) && cfg_has_return_jmp(return_.0.term.jmps@),
+    }
+}
+
+/// THE SHAPE INVARIANT: every edge and every node of the graph under construction has its shape
+pub open spec fn cfg_shape<'a>(st: CfgSt<'a>) -> bool {
+    &&& forall |e: int| 0 <= e < st.edges.len() ==> cfg_edge_shape(st.nodes, #[trigger] st.edges[e])
+    &&& forall |n: int| 0 <= n < st.nodes.len() ==> cfg_node_shape(#[trigger] st.nodes[n])
+}
+
+/// THE SHAPE INVARIANT on a graph (what get_program_cfg exports to the consumers of the graph): over the ghost views of the
+/// petgraph shim, for every edge index e and node index n
+pub open spec fn cfg_graph_shape<'a>(g: Graph<'a>) -> bool {
+    &&& forall |e: int| 0 <= e < g.edge_seq().len() ==>
+            cfg_edge_shape(cfg_nodes(g), CfgEdge { src: (#[trigger] g.edge_seq()[e]).0, dst: g.edge_seq()[e].1, w: g.edge_weight(e) })
+    &&& forall |n: int| 0 <= n < g.node_count_spec() ==> cfg_node_shape(#[trigger] g.node_weight(n))
 }
 
 /// a BlkStart / BlkEnd node stands for a block of the program, in a function of the program
@@ -411,6 +463,8 @@ pub open spec fn cfg_jump_wf(subs: Map<Tid, Term<Sub>>, b: Term<Blk>, jump: Term
 /// instructions", module documentation of graph.rs), and every block tid they name exists
 pub open spec fn cfg_block_wf(subs: Map<Tid, Term<Sub>>, b: Term<Blk>) -> bool {
     &&& b.term.jmps@.len() <= 2
+    // "In the case of two jump instructions the first one is a conditional jump" (module documentation of graph.rs)
+    &&& b.term.jmps@.len() == 2 ==> b.term.jmps@[0].term is CBranch
     &&& forall |j: int| 0 <= j < b.term.jmps@.len() ==> cfg_jump_targets_exist(subs, b, #[trigger] b.term.jmps@[j])
 }
 
@@ -561,6 +615,7 @@ pub open spec fn cfg_return_vec_ok<'a>(nodes: Seq<Node<'a>>, v: Seq<(NodeIndex, 
     &&& v.len() == cfg_return_nodes(nodes, n).len()
     &&& forall |j: int| 0 <= j < v.len() ==> (#[trigger] v[j]).0 == cfg_return_nodes(nodes, n)[j]
             && v[j].0.i < nodes.len() && nodes[v[j].0.i as int] is BlkEnd && v[j].1 == cfg_sub(nodes[v[j].0.i as int])
+            && cfg_has_return_jmp(cfg_blk(nodes[v[j].0.i as int]).term.jmps@)
 }
 
 // ---- build -----------------------------------------------------------------------------------------------------------------
@@ -605,7 +660,7 @@ pub open spec fn cfg_graph_of<'a>(g: Graph<'a>, st: CfgSt<'a>) -> bool {
 
 /// THE POSTCONDITION of build / get_program_cfg_with_logs / get_program_cfg
 pub open spec fn cfg_built<'a>(g: Graph<'a>, subs: Map<Tid, Term<Sub>>, ext: Set<Tid>) -> bool {
-    exists |st: CfgSt<'a>| #[trigger] cfg_build_post(st, subs, ext) && cfg_graph_of(g, st)
+    exists |st: CfgSt<'a>| #[trigger] cfg_build_post(st, subs, ext) && cfg_graph_of(g, st) && cfg_inv(st, subs)
 }
 
 // ---- get_entry_nodes_of_subs ----------------------------------------------------------------------------------------------------
@@ -749,4 +804,14 @@ pub open spec fn cfg_global<'a>(st: CfgSt<'a>, subs: Map<Tid, Term<Sub>>, ext: S
 
 pub open spec fn cfg_global_post<'a>(st: CfgSt<'a>, subs: Map<Tid, Term<Sub>>, ext: Set<Tid>) -> bool {
     exists |ks: Seq<Tid>, s2: CfgSt<'a>, n: int| #[trigger] cfg_build_steps(ks, s2, n, st, subs, ext) && cfg_global(st, subs, ext, ks, s2, n)
+}
+
+/// an untaken jump handed on with a jump is a conditional branch (cfg_block_wf: the first of two jumps)
+pub open spec fn cfg_untaken_ok(uc: Option<&Term<Jmp>>) -> bool {
+    uc is Some ==> uc->Some_0.term is CBranch
+}
+
+/// `rs` is an existing BlkEnd node whose block contains a return instruction
+pub open spec fn cfg_is_return_end<'a>(st: CfgSt<'a>, rs: NodeIndex) -> bool {
+    cfg_is_end(st, rs) && cfg_has_return_jmp(cfg_blk(st.nodes[rs.i as int]).term.jmps@)
 }
